@@ -157,14 +157,21 @@ struct ShimProvider : public resolvo::DependencyProvider {
                 break;
             }
         }
-        if (favored >= 0) {
-            favored_[package.id] = SolvableId{static_cast<uint32_t>(favored)};
-            result.favored = &favored_[package.id];
-        }
-        if (locked >= 0) {
-            locked_[package.id] = SolvableId{static_cast<uint32_t>(locked)};
-            result.locked = &locked_[package.id];
-        }
+        // favored / locked are pointers: either into storage owned by the provider, or (just as
+        // natural for an implementer) at the element of the returned candidates vector itself
+        bool into_vector = vq_style(ctx) % 2 == 1;
+        auto point_at = [&](int64_t id, std::map<uint32_t, SolvableId> &own) -> const SolvableId * {
+            if (into_vector) {
+                const Vector<SolvableId> &cv = result.candidates;
+                for (size_t i = 0; i < cv.size(); ++i) {
+                    if (cv[i].id == static_cast<uint32_t>(id)) return &cv[i];
+                }
+            }
+            own[package.id] = SolvableId{static_cast<uint32_t>(id)};
+            return &own[package.id];
+        };
+        if (favored >= 0) result.favored = point_at(favored, favored_);
+        if (locked >= 0) result.locked = point_at(locked, locked_);
         for (size_t i = 0; i < nh; ++i) result.hint_dependencies_available.push_back(SolvableId{hints[i]});
         for (size_t i = 0; i < ne; ++i) {
             result.excluded.push_back(ExcludedSolvable{SolvableId{excl[2 * i]}, StringId{excl[2 * i + 1]}});
